@@ -8,7 +8,14 @@ run → Dcg/Gen/CodeSites.lean.
   with the source text of each embedded expression.
 * `fieldExtraKeySites`: the expressions that become keyword NAMES of `Field(...)` (pydantic v1) — the key
   expressions of the dict(-comprehension)s of `JsonSchemaParser.get_field_extras`, followed through helper methods
-  of the same class — and whether each one is a call of the identifier sanitiser `self.get_field_extra_key(…)`."""
+  of the same class — and whether each one is a call of the identifier sanitiser `self.get_field_extra_key(…)`.
+* `fieldExtraKeySanitiser`: WHAT that sanitiser is — every binding of `get_field_extra_key` in `JsonSchemaParser` (an
+  assignment `self.get_field_extra_key = …` of a lambda or of a method of the class, or a method of that name), the
+  guard it stands under (`self.data_model_field_type.can_have_extra_keys` true / false / none), and for EVERY return
+  path of the bound function its form: `resolver` = `self.model_resolver.get_valid_field_name_and_alias(<the key
+  parameter, untouched>)[0]`, `identity` = the key parameter itself, anything else with its source text.  A fast path
+  that hands a key back unchanged (e.g. `if key.isidentifier(): return key` — keywords are identifiers for
+  `str.isidentifier`) is an `identity` path under the `can_have_extra_keys` guard: a broken obligation."""
 from __future__ import annotations
 
 import ast
@@ -94,6 +101,103 @@ def field_extra_key_sites() -> list[tuple[str, str, bool]]:
     return out
 
 
+def _split_paths(e: ast.expr) -> list[ast.expr]:
+    if isinstance(e, ast.IfExp):
+        return _split_paths(e.body) + _split_paths(e.orelse)
+    if isinstance(e, ast.BoolOp):  # `a or b` returns either operand
+        return [p for v in e.values for p in _split_paths(v)]
+    return [e]
+
+
+def _falls_off(body: list[ast.stmt]) -> bool:
+    """can control reach the end of this statement list (an implicit `return None`)"""
+    if not body:
+        return True
+    last = body[-1]
+    if isinstance(last, (ast.Return, ast.Raise)):
+        return False
+    if isinstance(last, ast.If):
+        return _falls_off(last.body) or _falls_off(last.orelse)
+    return True
+
+
+def _path_form(e: ast.expr, param: str | None) -> str:
+    if isinstance(e, ast.Name) and e.id == param:
+        return "identity"
+    if (isinstance(e, ast.Subscript) and isinstance(e.slice, ast.Constant) and e.slice.value == 0 and isinstance(e.value, ast.Call)
+            and ast.unparse(e.value.func) == "self.model_resolver.get_valid_field_name_and_alias" and not e.value.keywords
+            and len(e.value.args) == 1 and isinstance(e.value.args[0], ast.Name) and e.value.args[0].id == param):
+        return "resolver"
+    return "other"
+
+
+def field_extra_key_sanitiser() -> list[tuple[str, str, str]]:
+    """(guard, form, source text) for every return path of every function bound to `get_field_extra_key`"""
+    tree = ast.parse((SRC / "parser" / "jsonschema.py").read_text())
+    cls = next((n for n in ast.walk(tree) if isinstance(n, ast.ClassDef) and n.name == "JsonSchemaParser"), None)
+    if cls is None:
+        return []
+    methods = {n.name: n for n in cls.body if isinstance(n, ast.FunctionDef)}
+    out: list[tuple[str, str, str]] = []
+
+    def of_function(guard: str, fn: ast.FunctionDef | ast.Lambda, bound: bool) -> None:
+        args = [a.arg for a in fn.args.args]
+        if bound and args[:1] == ["self"]:
+            args = args[1:]
+        param = args[0] if len(args) == 1 and not fn.args.vararg and not fn.args.kwarg and not fn.args.kwonlyargs else None
+        if isinstance(fn, ast.Lambda):
+            rets = _split_paths(fn.body)
+        else:
+            rets = [p for n in ast.walk(fn) if isinstance(n, ast.Return) and n.value is not None for p in _split_paths(n.value)]
+            # the key parameter must reach the return untouched: an assignment to it anywhere makes every path `other`
+            if any(isinstance(n, ast.Name) and n.id == param and isinstance(n.ctx, (ast.Store, ast.Del)) for n in ast.walk(fn)):
+                param = None
+            if _falls_off(fn.body) or any(isinstance(n, ast.Return) and n.value is None for n in ast.walk(fn)):
+                out.append((guard, "other", "<returns None>"))
+        for r in rets:
+            out.append((guard, _path_form(r, param), ast.unparse(r)))
+
+    def of_value(guard: str, v: ast.expr) -> None:
+        if isinstance(v, ast.Lambda):
+            of_function(guard, v, False)
+        elif isinstance(v, ast.Attribute) and isinstance(v.value, ast.Name) and v.value.id == "self" and v.attr in methods:
+            of_function(guard, methods[v.attr], True)
+        else:
+            out.append((guard, "other", ast.unparse(v)))
+
+    def is_target(t: ast.expr) -> bool:
+        return isinstance(t, ast.Attribute) and t.attr == "get_field_extra_key" and isinstance(t.value, ast.Name) and t.value.id == "self"
+
+    def walk(stmts: list[ast.stmt], guard: str) -> None:
+        for st in stmts:
+            if isinstance(st, ast.Assign) and any(is_target(t) for t in st.targets):
+                of_value(guard, st.value)
+            elif isinstance(st, ast.AnnAssign) and is_target(st.target) and st.value is not None:
+                of_value(guard, st.value)
+            elif isinstance(st, ast.If):
+                test = ast.unparse(st.test)
+                if test == "self.data_model_field_type.can_have_extra_keys" and guard == "always":
+                    walk(st.body, "can_have_extra_keys")
+                    walk(st.orelse, "not can_have_extra_keys")
+                elif test == "not self.data_model_field_type.can_have_extra_keys" and guard == "always":
+                    walk(st.body, "not can_have_extra_keys")
+                    walk(st.orelse, "can_have_extra_keys")
+                else:  # any other condition: what is bound under it must be safe whatever the field type
+                    walk(st.body, "always" if guard != "can_have_extra_keys" else guard)
+                    walk(st.orelse, "always" if guard != "can_have_extra_keys" else guard)
+            else:
+                for field in ("body", "orelse", "finalbody", "handlers"):
+                    sub = getattr(st, field, None)
+                    if isinstance(sub, list) and sub and isinstance(sub[0], (ast.stmt, ast.ExceptHandler)):
+                        walk([x for h in sub for x in (h.body if isinstance(h, ast.ExceptHandler) else [h])], "always" if guard != "can_have_extra_keys" else guard)
+
+    for fn in methods.values():
+        walk(fn.body, "always")
+    if "get_field_extra_key" in methods:  # a method of that name instead of an instance attribute
+        of_function("always", methods["get_field_extra_key"], True)
+    return out
+
+
 GEN_NAME = "CodeSites"
 
 
@@ -109,6 +213,12 @@ def generate() -> str:
     out.append("field extras (pydantic v1: a keyword NAME of `Field(...)`) -/")
     out.append("def fieldExtraKeySites : List (String × String × Bool) := [")
     out.append(",\n".join(f"  ({lean_string(f)}, {lean_string(e)}, {'true' if ok else 'false'})" for f, e, ok in field_extra_key_sites()))
+    out.append("]\n")
+    out.append("/-- (guard, form, source) of every return path of every function bound to `get_field_extra_key` in `JsonSchemaParser`:")
+    out.append("guard = the `can_have_extra_keys` branch the binding stands in; form = `resolver` (the field-name resolver applied to the")
+    out.append("untouched key, first component), `identity` (the key itself) or `other` -/")
+    out.append("def fieldExtraKeySanitiser : List (String × String × String) := [")
+    out.append(",\n".join(f"  ({lean_string(g)}, {lean_string(f)}, {lean_string(src)})" for g, f, src in field_extra_key_sanitiser()))
     out.append("]\n")
     out.append("end Dcg.Gen.CodeSites")
     return "\n".join(out) + "\n"
